@@ -243,8 +243,13 @@ fn send_msgs(send: &dyn Fn(&[u8]) -> std::io::Result<usize>, d: &Dir, who: &str,
 fn recv_msgs(recv: &dyn Fn(&mut [u8]) -> std::io::Result<usize>, d: &Dir, rng: &mut Rng, maxmsg: u64, who: &str, tf: u64) {
     let c = mayv::ctx();
     let mut buf = vec![0u8; (maxmsg + 64) as usize];
+    // MAYV_RDSLOW=n: the receiver pauses before every n-th receive, so that the sender runs into a full queue
+    let rdslow = envn("MAYV_RDSLOW", 0) as usize;
     for (k, &sz) in d.sizes.iter().enumerate() {
         let n = rng.range(maxmsg.max(1), maxmsg + 64) as usize;
+        if rdslow != 0 && k % rdslow == 0 {
+            may::coroutine::sleep(std::time::Duration::from_micros(300));
+        }
         brk();
         if tf != NOF {
             tap::call_rd(tf, true, None, n);
